@@ -581,7 +581,20 @@ func (vc *VC) zero(t types.Type) *Term {
 		z := vc.intLit(0, 64)
 		return &Term{fmt.Sprintf("(mk-slice nil %s %s %s)", z, z, z), s, t}
 	case *types.Array:
-		return &Term{fmt.Sprintf("((as const %s) %s)", s, vc.zero(u.Elem()).S), s, t}
+		ez := vc.zero(u.Elem()).S
+		if strings.Contains(ez, "nil") || strings.Contains(ez, "!") {
+			// cvc5 accepts only literal values in (as const ...): name the array instead
+			key := "zarr:" + s + ":" + ez
+			if n, ok := vc.lits[key]; ok {
+				return &Term{n, s, t}
+			}
+			n := vc.fresh("zarr")
+			vc.declare(n, s)
+			vc.assume(fmt.Sprintf("(forall ((i %s)) (! (= (select %s i) %s) :pattern ((select %s i))))", vc.idxSort(), n, ez, n))
+			vc.lits[key] = n
+			return &Term{n, s, t}
+		}
+		return &Term{fmt.Sprintf("((as const %s) %s)", s, ez), s, t}
 	case *types.Struct:
 		if u.NumFields() == 0 {
 			return &Term{"mk-" + s, s, t}
